@@ -224,9 +224,13 @@ for _g in (False, True):
 # =====================================================================================================
 # BaseImage.draw (with its nested render())
 # =====================================================================================================
-def old_draw_unit(animated_case, graphics):
+def old_draw_unit(case, graphics):
+    """case: 'still' (a still image), 'animation' (an animated image drawn with animate=True), 'still-of-animated' (an animated image
+    drawn with animate=False: the current frame only - a still draw in every respect)"""
     style = "graphics" if graphics else "text"
-    label = f"draw[{'animation' if animated_case else 'still'},{style}]"
+    label = f"draw[{case},{style}]"
+    animated_case = case == "animation"
+    is_animated = case != "still"
 
     @unit(("C06", "C07"), f"common:BaseImage.{label}")
     def u(ctx):
@@ -245,10 +249,12 @@ def old_draw_unit(animated_case, graphics):
         animate, scroll, check_size = z3.Bools("animate scroll check_size")
         if animated_case:
             st.pc.append(animate)
+        elif is_animated:
+            st.pc.append(z3.Not(animate))
         animation = animated_case
         size0 = z3.Int("size_setting0")
         seek0 = z3.Int("seek_position0")
-        self_ = st.new("BlockImage", {"_is_animated": animated_case, "_size": size0, "_seek_position": seek0})
+        self_ = st.new("BlockImage", {"_is_animated": is_animated, "_size": size0, "_seek_position": seek0})
         img = st.new("pilimg", {})
         pad_width, pad_height = z3.Ints("pad_width pad_height")
         fmt = ("<", fw, "^", fh)
@@ -374,7 +380,7 @@ def old_draw_unit(animated_case, graphics):
     return u
 
 
-for _a in (False, True):
+for _a in ("still", "animation", "still-of-animated"):
     for _g in (False, True):
         old_draw_unit(_a, _g)
 
@@ -449,3 +455,74 @@ def iterm2_display_unit(term, mix):
 for _t in ("wezterm", "iterm2"):
     for _m in (False, True):
         iterm2_display_unit(_t, _m)
+
+
+# =====================================================================================================
+# KittyImage._display_animated / _clear_frame: every frame of an animation replaces the previous one
+# =====================================================================================================
+@unit("C06", "kitty:KittyImage._display_animated+_clear_frame")
+def u_kitty_display(ctx):
+    """On kitty, a frame drawn over the previous one stacks on it unless the previous one is removed: either the frame is sent with
+    blend=False (newer versions), or the per-frame clear deletes the z-index the frames are drawn at.  Whatever z-index / blend the
+    caller asked for, the animation uses the reserved z-index that the clear deletes."""
+    obs = []
+    RESERVED = -(1 << 31)
+    for caller_kwargs in ({}, {"z_index": 5}, {"blend": True}, {"z_index": -3, "mix": True}):
+        eng = ctx.engine(f"C06/kitty._display_animated[caller={sorted(caller_kwargs)}]", "C06")
+        eng.default_replay = "C06.kitty_animation"
+        st = State()
+        v = tuple(z3.Int(f"kitty_version_{i}") for i in range(3))
+        st.pc += [x >= 0 for x in v]
+        self_ = st.new("KittyImage", {"_KITTY_VERSION": v})
+        kw = st.new("dict", {"@items": dict(caller_kwargs)})
+        args = (Opaque("img"), Opaque("alpha"), Opaque("fmt"), Opaque("repeat"), Opaque("cached"))
+        seen = {}
+
+        def super_display(e, s, a, k):
+            s = e.fork(s)
+            s.ghost["seen"] = {"args": a, "kw": dict(k)}
+            return [(None, s)]
+        eng.genv["super"] = Fn(lambda e, s, a, k: [(Rec("super", {}), s)])
+        eng.attrs[("super", "_display_animated")] = lambda e, s, vv: [(Fn(super_display), s)]
+        st.env.update(self=self_, args=args, kwargs=kw)
+        newer = z3.Or(v[0] > 0, z3.And(v[0] == 0, z3.Or(v[1] > 25, z3.And(v[1] == 25, v[2] > 0))))
+        for kind, val, s in run_function(eng, ctx.fn("image/kitty.py", "KittyImage._display_animated"), st):
+            if kind == "raise":
+                eng.oblige(f"no-exception:{val.cls}", s, False, kind="raise")
+                continue
+            seen = s.ghost.get("seen", {})
+            k = seen.get("kw", {})
+            eng.oblige("frames-drawn-at-the-reserved-z-index-whatever-the-caller-asked", s, And(seen.get("args") == args, Eq(k.get("z_index"), RESERVED)), kind="post")
+            eng.oblige("newer-kitty:frames-replace-what-is-under-them(blend=False);older:left-to-the-per-frame-clear", s,
+                       z3.If(newer, z3.BoolVal(k.get("blend") is False), z3.BoolVal(k.get("blend", caller_kwargs.get("blend")) == caller_kwargs.get("blend"))), kind="post")
+            eng.oblige("other-arguments-passed-on-unchanged", s, {kk: vv for kk, vv in k.items() if kk not in ("z_index", "blend")} == {kk: vv for kk, vv in caller_kwargs.items() if kk not in ("z_index", "blend")}, kind="post")
+        obs += eng.obligations
+    # the per-frame clear: deletes exactly the reserved z-index on the versions where blend=False is not used, nothing otherwise
+    eng = ctx.engine("C06/kitty._clear_frame", "C06")
+    eng.default_replay = "C06.kitty_animation"
+    st = State()
+    v = tuple(z3.Int(f"kitty_version_{i}") for i in range(3))
+    st.pc += [x >= 0 for x in v]
+    known = z3.Bool("version_known")
+    cleared = []
+
+    def m_clear(e, s, recv, a, k):
+        s = e.fork(s)
+        s.ghost["cleared"] = s.ghost.get("cleared", []) + [(tuple(a), dict(k))]
+        return [(None, s)]
+    for has_version in (True, False):
+        cls = st.new("KittyImageCls", {"_KITTY_VERSION": v if has_version else ()})
+        eng.methods[("KittyImageCls", "clear")] = m_clear
+        s0 = st.fork()
+        s0.frames = [dict(cls=cls)]
+        newer = z3.Or(v[0] > 0, z3.And(v[0] == 0, z3.Or(v[1] > 25, z3.And(v[1] == 25, v[2] > 0))))
+        for kind, val, s in run_function(eng, ctx.fn("image/kitty.py", "KittyImage._clear_frame"), s0):
+            cleared = s.ghost.get("cleared", [])
+            if kind == "raise":
+                eng.oblige(f"no-exception:{val.cls}", s, False, kind="raise")
+                continue
+            did = val is True
+            eng.oblige(f"clears-exactly-the-reserved-z-index-on-older-versions[version-known={has_version}]", s,
+                       And(Implies(did, And(bool(cleared) and cleared[-1] == ((), {"z_index": RESERVED}), has_version, Not(newer))),
+                           Implies(Not(did), Or(not has_version, newer))), kind="post")
+    return obs + eng.obligations
